@@ -32,7 +32,9 @@ type switchboard struct {
 
 	conns      sync.Map
 	connsCount uint32
-	randPool   sync.Pool
+	// addConnM serialises addConn so that a connection is stored before its index becomes selectable
+	addConnM sync.Mutex
+	randPool sync.Pool
 
 	broken uint32
 }
@@ -54,8 +56,13 @@ func makeSwitchboard(sesh *Session) *switchboard {
 var errBrokenSwitchboard = errors.New("the switchboard is broken")
 
 func (sb *switchboard) addConn(conn net.Conn) {
-	connId := atomic.AddUint32(&sb.connsCount, 1) - 1
+	sb.addConnM.Lock()
+	connId := atomic.LoadUint32(&sb.connsCount)
 	sb.conns.Store(connId, conn)
+	// publish the new count only after the conn is in the map, otherwise a concurrent send may pick
+	// an index that cannot be loaded yet and tear the session down
+	atomic.AddUint32(&sb.connsCount, 1)
+	sb.addConnM.Unlock()
 	go sb.deplex(conn)
 }
 
